@@ -181,7 +181,7 @@ def wire_ty(d):
         return {"t": "Opaque", "extension": STD_EXT["sarray"], "id": "static_array",
                 "args": [{"tya": "Type", "ty": wire_ty(d[1])}], "bound": ref_bound(d[1])}
     if k == "ext":
-        return {"t": "Opaque", "extension": HEXT, "id": d[1]["name"],
+        return {"t": "Opaque", "extension": d[1].get("ext", HEXT), "id": d[1]["name"],
                 "args": [wire_arg(a) for a in d[2]], "bound": ref_bound(d)}
     raise AssertionError(d)
 
@@ -193,10 +193,11 @@ class Builder:
     """Turns descriptors into hugr objects.  One harness extension per Builder collects the
     generated TypeDefs (same name => same definition object)."""
 
-    def __init__(self, opaque=False):
+    def __init__(self, opaque=False, extension=None):
         from hugr import ext
 
-        self.ext = ext.Extension(HEXT, ext.Version(0, 1, 0))
+        self.ext = extension or ext.Extension(HEXT, ext.Version(0, 1, 0))
+        self.exts = {self.ext.name: self.ext}
         self.defs = {}
         #: build every extension type in its opaque form (what decoding yields)
         self.opaque = opaque
@@ -259,12 +260,15 @@ class Builder:
     def typedef(self, df):
         from hugr import ext
 
-        key = df["name"]
+        ename = df.get("ext", HEXT)
+        key = (ename, df["name"])
         if key in self.defs:
             return self.defs[key]
+        if ename not in self.exts:
+            self.exts[ename] = ext.Extension(ename, ext.Version(0, 1, 0))
         b = (ext.ExplicitBound(self.bound(df["bound"][1])) if df["bound"][0] == "explicit"
              else ext.FromParamsBound(list(df["bound"][1])))
-        td = self.ext.add_type_def(ext.TypeDef(
+        td = self.exts[ename].add_type_def(ext.TypeDef(
             name=df["name"], description="generated", params=[self.param(p) for p in df["params"]],
             bound=b))
         self.defs[key] = td
